@@ -158,9 +158,16 @@ impl ValveProtocol {
 
             chunk_packets.sort_by(|a, b| a.number.cmp(&b.number));
 
+            // The datagram that arrived first is not necessarily fragment 0: put its payload where its
+            // number says it belongs
+            let mut first_payload = Some(std::mem::take(&mut main_packet.payload));
             for chunk_packet in chunk_packets {
+                if chunk_packet.number > main_packet.number {
+                    main_packet.payload.extend(first_payload.take().unwrap_or_default());
+                }
                 main_packet.payload.extend(chunk_packet.payload);
             }
+            main_packet.payload.extend(first_payload.take().unwrap_or_default());
 
             let payload = main_packet.get_payload()?; // Creating a non-temporary value here
             let mut new_packet_buffer = Buffer::<LittleEndian>::new(&payload); // Using the non-temporary value here
